@@ -67,8 +67,20 @@ class BoundedRun:
         if sample is not None and len(self.samples) < 5:
             self.samples.append(sample)
 
+    # set by the runner: tells whether a failure is covered by a listed known finding.  Known failures are kept up to a cap
+    # of their own, so that they can never crowd out a failure that no finding lists.
+    known_matcher = None
+    KNOWN_CAP, NEW_CAP = 400, 4000
+
     def fail(self, f: Failure):
-        if len(self.failures) < 400:
+        m = BoundedRun.known_matcher
+        if m is not None and m(f):
+            self._n_known = getattr(self, "_n_known", 0) + 1
+            if self._n_known <= self.KNOWN_CAP:
+                self.failures.append(f)
+            return
+        self._n_new = getattr(self, "_n_new", 0) + 1
+        if self._n_new <= self.NEW_CAP:
             self.failures.append(f)
 
     def summary(self):
@@ -206,6 +218,8 @@ def run_property(mod, pid, tier, seed, args, t0):
         jobs = [j for j in jobs if re.search(args.only, job_name(j))]
     reports = run_jobs(jobs, specs, args.procs)
     t_proof = time.time() - t0
+    _early = load_findings(pid)
+    BoundedRun.known_matcher = staticmethod(lambda f: any(finding_matches(fd, failure=f) for fd in _early))
     bruns = [] if args.no_bounded else mod.bounded(tier, seed, args.procs)
     t_all = time.time() - t0
     findings = load_findings(pid)
